@@ -12,6 +12,7 @@ mod common;
 mod strings;
 mod suite_cmp;
 mod suite_axes;
+mod arena_obs;
 mod suite_arena;
 mod suite_build;
 mod suite_entity;
